@@ -47,7 +47,9 @@ def extra(binary, build, tier, rng):
     specs = [("u8", 0, 2, 32), ("i8", -1, 1, 32), ("u16", 10, 16, 32), ("u8", 0, 254, 32), ("i16", -300, 2700, 32),
              ("u64", 0, 2, 64), ("i32", -1, 1, 64), ("u32", 5, 9, 64), ("usize", 0, 6, 64), ("i64", -5, 5, 64), ("u64", 0, (1 << 63), 64), ("u64", 7, 1000006, 64),
              # mid-sized ranges (between 2^16 and 2^40, not powers of two): where a "cheaper" threshold computation goes wrong
-             ("i32", -500000, 499999, 64), ("u32", 10, 1000012, 64), ("usize", 0, 249999, 64), ("u64", 1000, 5000000000 - 1, 64), ("u16", 1, 40000, 32), ("i64", -(1 << 35), (1 << 35) + 12344, 64)]
+             ("i32", -500000, 499999, 64), ("u32", 10, 1000012, 64), ("usize", 0, 249999, 64), ("u64", 1000, 5000000000 - 1, 64), ("u16", 1, 40000, 32), ("i64", -(1 << 35), (1 << 35) + 12344, 64),
+             # ranges wider than half the word (every value has exactly ONE accepted word; 2^64 mod r = 2^64 - r)
+             ("u64", 0, (1 << 64) - 2, 64), ("i64", -(1 << 63), (1 << 63) - 2, 64), ("u64", 5, 5 + (1 << 63) + 12344, 64), ("usize", 0, 3 * (1 << 62), 64), ("i64", -(1 << 62) - 77, (1 << 62) + 12345678, 64)]
     if tier == "thorough":
         specs += [("u16", 0, r - 1, 32) for r in (3, 5, 7, 9, 11, 255, 1001, 65535)] + [("u64", 0, r - 1, 64) for r in (3, 5, 7, 9, 11, 13, 641, 2 ** 32 + 1, 2 ** 40 + 3)]
     from .preimage_oracle import first_draw_counts
